@@ -37,6 +37,7 @@ def make_scratch():
 
 def run_check(prop, scratch, tier="quick"):
     env = dict(os.environ)
+    env["VERIF_NO_SELFTEST"] = "1"
     env["VERIF_REPO"] = scratch
     env["VERIF_WORK"] = os.path.join(scratch, ".work")
     env["VERIF_EVIDENCE_DIR"] = os.path.join(scratch, ".evidence")
